@@ -29,6 +29,26 @@ fn main() {
             let mut r = rv::record::Recorder::new(&out, seed);
             match driver.as_str() {
                 "store" => r.driver_store(rounds),
+                "enc" => {
+                    let shard: usize = arg(&args, "--shard").and_then(|s| s.parse().ok()).unwrap_or(0);
+                    let shards: usize = arg(&args, "--shards").and_then(|s| s.parse().ok()).unwrap_or(1);
+                    let quick = arg(&args, "--tier").map(|t| t != "thorough").unwrap_or(true);
+                    r.driver_enc(shard, shards, quick);
+                }
+                "fcands" => {
+                    let shard: usize = arg(&args, "--shard").and_then(|s| s.parse().ok()).unwrap_or(0);
+                    let shards: usize = arg(&args, "--shards").and_then(|s| s.parse().ok()).unwrap_or(1);
+                    let quick = arg(&args, "--tier").map(|t| t != "thorough").unwrap_or(true);
+                    r.driver_fcands(shard, shards, quick);
+                }
+                "cands" => {
+                    let shard: usize = arg(&args, "--shard").and_then(|s| s.parse().ok()).unwrap_or(0);
+                    let shards: usize = arg(&args, "--shards").and_then(|s| s.parse().ok()).unwrap_or(1);
+                    let quick = arg(&args, "--tier").map(|t| t != "thorough").unwrap_or(true);
+                    let corpus_seed: u64 = arg(&args, "--corpus-seed").and_then(|s| s.parse().ok()).unwrap_or(1);
+                    let texts = rv::record::cands_corpus(&r.or, quick, corpus_seed);
+                    r.driver_cands(&texts, shard, shards);
+                }
                 d => {
                     eprintln!("rv: unknown driver {}", d);
                     std::process::exit(2);
